@@ -99,7 +99,7 @@ func c13ObjectProgram(s Src) (string, *C13Expect) {
 			objKeys[o][k] = true
 		}
 	}
-	pool := []string{"zeta", "alpha", "mid", "beta", "omega", "gamma", "ক", "delta"}
+	pool := []string{"zeta", "alpha", "mid", "beta", "omega", "gamma", "\u0995", "delta", "ID", "id", "Id", "\u09ac\u09df\u09b8", "Alpha"}
 	drawKeys := func(n int) []string {
 		p := append([]string(nil), pool...)
 		for i := 0; i < n; i++ {
